@@ -50,3 +50,10 @@ claim("C11", "sibling set agreement (assign vs Unassign), loop must-pass rules, 
 claim("C20", "must-hold lockset dataflow with caller-holds fixed point and LIFO defer modelling, who-may-call / method-value escape analysis, alias-of-guarded-storage check",
       "Mutual exclusion premises decided on all paths: handlers only run under the Listener mutex, every guarded field is accessed under its lock, callbacks and channel sends run outside the fine-grained locks, no mutable guarded storage is handed out. Serial equivalence of results is a consequence, not checked on values; lock instances are not distinguished (no pointer analysis).",
       NOTE, "DESIGN.md section 5, C20")
+
+claim("C13", "CFG dominance of reply guards, loop-exhaustion analysis of the verdict, append-iff-increment pairing, lockset dataflow restricted to layer2",
+      "The responders reply only behind the request-type, destination and announcer-verdict guards; the verdict is positive only for a matching advertisement and negative only after a full scan; advertisements and reference counts move together; unsolicited announcements need a positive count; all announcer state is lock-guarded. Decided on all paths; packet-level library behaviour is not.",
+      NOTE, "DESIGN.md section 5, C13")
+claim("C17", "lockset dataflow, condition-variable wake-up rule, typestate of closed/conn, must-pass / branch-always path rules, field coverage of Equal",
+      "Lock discipline of the session, wake-ups after predicate changes, no dial/store after close, ASN refusal, abort on every failed send, the pending set is never dropped, full re-send before the first wait, exact diff/withdraw construction, commit after both phases; decided on all paths. Convergence over all interleavings is not decided.",
+      NOTE, "DESIGN.md section 5, C17")
